@@ -289,9 +289,15 @@ def _shape(ctx, index):
     rec_d = index.func("cdd.shared.ast_utils.is_argparse_description")
     pop = index.func("cdd.argparse_function.utils.emit_utils.parse_out_param")
     emit_fn = index.func("cdd.argparse_function.emit.argparse_function")
+    from ..core import RefGraph
+    from ..region import Region
+
+    graph_ = RefGraph(index)
+
     def written_by(fn):
+        """constants the emitter writes as Name ids / attribute names — in its own body or in a private helper it calls"""
         out = set()
-        for n in iter_own(fn.node):
+        for _g, n in Region(index, graph_, fn, allow_passed=True).nodes():
             if isinstance(n, ast.Call) and norm(n.func).rpartition(".")[2] == "Name" and n.args and isinstance(n.args[0], ast.Constant):
                 out.add(("name", n.args[0].value))
             if isinstance(n, ast.Call) and norm(n.func).rpartition(".")[2] == "Attribute" and len(n.args) >= 2 and isinstance(n.args[1], ast.Constant):
